@@ -20,6 +20,10 @@ fn main() {
             "--elide-index" => cfg.elide_index = true,
             "--index-budget" => { cfg.index_budget = args[i + 1].parse().unwrap(); i += 1; }
             "--idx" => cfg.index_contents = true,
+            "--twice" => cfg.twice = true,
+            "--no-state" => cfg.no_state = true,
+            "--own-dir" => cfg.own_dir = true,
+            "--digest-above" => { cfg.digest_above = Some(args[i + 1].parse().unwrap()); i += 1; }
             x => { eprintln!("unknown arg {}", x); std::process::exit(2); }
         }
         i += 1;
